@@ -4,6 +4,8 @@ import (
 	"fmt"
 	"go/ast"
 	"go/token"
+	"os"
+	"path/filepath"
 	"strconv"
 	"strings"
 
@@ -153,7 +155,18 @@ func leanFmt(f string, args []string) string {
 	return "(" + fact.LeanBytes(f) + ", [" + strings.Join(codes, ", ") + "])"
 }
 
+func pinnedDir() string {
+	root := os.Getenv("VERIF_ROOT")
+	if root == "" {
+		root = "/verif"
+	}
+	return filepath.Join(root, "harness", "pinned")
+}
+
 func genDiff(g *fact.Gen) {
+	// `lines` itself, translated statement by statement (harness/internal/go2lean)
+	g.TranslateModule("DiffGo", "diff/diff.go", []string{"lines"}, "diff",
+		[]string{"GIV.GoLib", "GIV.Model.Diff"}, "GIV.Go.Diff", filepath.Join(pinnedDir(), "DiffGo.lean"))
 	const rel = "diff/diff.go"
 	g.Emit("set_option linter.unusedVariables false\n/-! facts read from %s: func Diff, func lines, func tgs -/\n", rel)
 	diff := g.FuncDecl(rel, "Diff")
